@@ -109,7 +109,7 @@ AllTypesC15 == Types \cup {"Header", "ChunkFrame", "CreditBatch"}
 MustReject(m) == m \in {"truncate-at-field", "truncate-inside-field", "unknown-type", "path-too-long", "path-traversal", "bad-magic",
                         "garbage-json", "index-ge-total", "chunk-length-0", "chunk-length-gt-chunksize", "crc-mismatch",
                         "duplicate-begin", "end-for-unknown-file", "request-for-unknown-file", "wrong-direction-record",
-                        "length-2^31", "length-2^32-1", "length-plus1", "chunksize-0", "chunksize-0-empty-file", "filedone-twice", "begin-after-done", "count-consistent-huge"}
+                        "length-2^31", "length-2^32-1", "length-plus1", "chunksize-0", "chunksize-0-empty-file", "begin-after-done", "count-consistent-huge"}
 
 Init ==
   /\ phase = "new"
